@@ -10,8 +10,11 @@ object size requested by the harness covers header + fields + payload, is a mult
 Termination is observed (watchdog `timeout`), not proved: it depends on the scheduler (C14).
 Level: proof of the verdict function; partial w.r.t. the code.
 The allocators' own arithmetic (aligned, inside the granted buffer / block / page run / cell, for every
-legal input; the `gc:bump-align-leak` condition and witness; the LOS page-cover lemma) is proved over the
-transcribed allocators in `Props/C03Algo.lean`.
+legal input; the LOS page-cover lemma) is proved over the transcribed allocators in `Props/C03Algo.lean`.
+`gc:bump-align-leak` is repaired in this tree (`acquire_block` sizes the block for
+`get_maximum_aligned_size`): `fresh_block_always_fits` proves the bump allocator's slow path always
+succeeds on a legal request (termination clause restored for that allocator); the exact failure condition
+and witnesses for the pinned tree are kept there as `fresh_block_fits_iff`, `bump_align_leak(_witness)`.
 -/
 namespace Mmtk.Heap
 
